@@ -4,14 +4,14 @@ use crate::common::*;
 
 pub fn run(ctx: &Ctx) -> Outcome {
     let mut out = Outcome::default();
-    let d = ctx.tier.pick(8, 11);
+    let d = ctx.tier.pick(9, 11);
     run_and_report(ctx, &rx(ctx.tier, 2, vec![MSS], d), &mut out);
     run_and_report(ctx, &rx(ctx.tier, 4, vec![1, MSS], d), &mut out);
     run_and_report(ctx, &rx(ctx.tier, 3, vec![MSS - 1], d), &mut out);
     run_and_report(ctx, &rx_halfclosed(ctx.tier, d), &mut out);
-    run_and_report(ctx, &rx_after_fin(ctx.tier, false, ctx.tier.pick(5, 7)), &mut out);
-    run_and_report(ctx, &rx_grown_mss(ctx.tier, ctx.tier.pick(6, 8)), &mut out);
-    run_and_report(ctx, &rx_growing_mss(ctx.tier, ctx.tier.pick(6, 8)), &mut out);
+    run_and_report(ctx, &rx_after_fin(ctx.tier, false, ctx.tier.pick(6, 7)), &mut out);
+    run_and_report(ctx, &rx_grown_mss(ctx.tier, ctx.tier.pick(7, 8)), &mut out);
+    run_and_report(ctx, &rx_growing_mss(ctx.tier, ctx.tier.pick(7, 8)), &mut out);
     out.rule = "C07: explicit-state BFS over arrival patterns x inter-arrival gaps (5 ms waits, timer ticks) x reader schedules; every accepted packet carries a 40 ms obligation in the monitor state".into();
     out.assumptions.push("deadlines are demanded in Established with a live reader and a transport that accepts the send".into());
     out
